@@ -8,6 +8,7 @@ import (
 	"fmt"
 	"io"
 	"sync/atomic"
+	"time"
 )
 
 // This file is compiled only with the build tag "verif".
@@ -202,4 +203,15 @@ func (c *RetryClient) VerifStopped() bool {
 	c.mu.RLock()
 	defer c.mu.RUnlock()
 	return c.stopped
+}
+
+// VerifReconnOptions returns the options a reconnecting client works with (after Connect has applied the
+// defaults): ping interval, response timeout, reconnect wait base and maximum.
+func VerifReconnOptions(c ReconnectClient) (ping, timeout, waitBase, waitMax time.Duration, ok bool) {
+	rc, ok := c.(*reconnectClient)
+	if !ok {
+		return 0, 0, 0, 0, false
+	}
+	o := rc.options
+	return o.PingInterval, o.Timeout, o.ReconnectWaitBase, o.ReconnectWaitMax, true
 }
